@@ -684,7 +684,9 @@ func genWiring() {
 	sb.WriteString("/-- `startPacketScanEngine` opens the socket with `conf.vpnMode`, installs `conf.bpfFilter(&conf.scanRange)` on it\n    and runs `conf.scanMethod` behind it (per chunk: `conf` is the chunk's copy) -/\n")
 	sb.WriteString("def engineInstallsFilterOfItsRange : Bool := " + leanBool(engineOK) + "\n\n")
 	sb.WriteString("/-- `afpacket.Source`: link type Ethernet, `LinkTypeIPv4` iff vpn; `SetBPFFilter` compiles for that link type -/\n")
-	sb.WriteString("def linkTypeFollowsVpn : Bool := " + leanBool(linkOK) + "\n\nend SxVerif.Generated\n")
+	sb.WriteString("def linkTypeFollowsVpn : Bool := " + leanBool(linkOK) + "\n\n")
+	sb.WriteString(snapLenFacts())
+	sb.WriteString("end SxVerif.Generated\n")
 	writeLean("Wiring.lean", sb.String())
 }
 
